@@ -16,12 +16,23 @@ def to_driver(c, via):
     return dict(op="raise", items=c["args"])
 
 
-def compare(chk, c, o, via):
-    wit = to_driver(c, via)
+def hist_driver(ops):
+    return dict(op="fhist", ops=[dict(op="format", fmt=x["fmt"], args=x["args"], cont=x["cont"]) if x["op"] == "format" else dict(op="raise", items=x["args"]) for x in ops])
+
+
+def compare(chk, c, o, via, wit=None, pre=""):
+    """Returns True if the observation diverges."""
+    n0 = len(chk.divergences)
+    _compare(chk, c, o, via, wit, pre)
+    return len(chk.divergences) > n0
+
+
+def _compare(chk, c, o, via, wit=None, pre=""):
+    wit = wit or to_driver(c, via)
     got = o.get("outcome")
     if got == "skipped":
         return
-    where = "Format" if c["op"] == "format" else "Raise"
+    where = pre + ("Format" if c["op"] == "format" else "Raise")
     if got in ("timeout", "crash", "unsupported"):
         chk.diverge(where, got, wit, "spec: %s; implementation: %s %s" % (c["outcome"], got, o.get("why")))
         return
@@ -32,7 +43,8 @@ def compare(chk, c, o, via):
         elif o.get("cls") != "nitro_exception":
             chk.diverge(where, "raise:" + str(o.get("cls")), wit, "wrong exception class")
         elif c["op"] == "raise" and o.get("out") != c["out"]:
-            chk.diverge("Raise", "wrong-result", wit, "message: spec %r implementation %r" % (_s(c["out"]), _s(o.get("out"))))
+            chk.diverge(pre + "Raise", "wrong-result", wit, "message of raise(%s): spec %r implementation %r" % (
+                ", ".join(("%s:%r" % (a["t"], _s(a["v"]) if a["t"] == "s" else a["v"])) for a in c["args"]), _s(c["out"]), _s(o.get("out"))))
         return
     if got != "ok":
         chk.diverge(where, "raise", wit, "format(%r) %% %r: spec ok %r, implementation raised %r"
@@ -73,6 +85,46 @@ def rand_cases(rng, n):
     return out
 
 
+def rand_hists(rng, n):
+    """Random histories on one thread: fresh formatters, renders repeated, arguments added after a render, raises whose
+    items include the hex-switching type."""
+    pieces = [b"{}", b"{}", b"{", b"}", b"a", b"bc", b" ", b"{{}}", b"}{"]
+    argv = [b"", b"x", b"{}", b"{", b"hello", b"42", b"a{}b"]
+    out = []
+    for _ in range(n):
+        h = []
+        for _ in range(rng.randint(2, 6)):
+            r = rng.random()
+            last = h[-1] if h else None
+            if last and last["op"] == "format" and r < 0.25:
+                h.append(dict(op="format", fmt=last["fmt"], args=list(last["args"]), cont="again"))
+            elif last and last["op"] == "format" and r < 0.55 and len(last["args"]) < 6:
+                h.append(dict(op="format", fmt=last["fmt"], args=list(last["args"]) + [b(rng.choice(argv))], cont=rng.choice(["mod", "args"])))
+            elif r < 0.8:
+                f = b"".join(rng.choice(pieces) for _ in range(rng.choice([0, 1, 2, 3, 5])))
+                k = 0; i = 0
+                while True:
+                    j = f.find(b"{}", i)
+                    if j < 0: break
+                    k += 1; i = j + 2
+                na = max(0, min(5, k + rng.choice([0, 0, 0, -1, -1, 1])))
+                h.append(dict(op="format", fmt=b(f), args=[b(rng.choice(argv)) for _ in range(na)], cont="new"))
+            else:
+                items, hexed = [], False
+                for _ in range(rng.randint(1, 4)):
+                    t = rng.choice("ssiih")
+                    if t == "s":
+                        items.append(dict(t="s", v=b(rng.choice(argv))))
+                    elif t == "h":
+                        items.append(dict(t="h", v=rng.choice([0, 9, 10, 255, 4096, 48879])))
+                        hexed = True
+                    else:
+                        items.append(dict(t="i", v=rng.choice([0, 7, 10, 42, 255, 1000, 65535] + ([] if hexed else [-1, -12]))))
+                h.append(dict(op="raise", fmt=[], args=items, cont="new"))
+        out.append(h)
+    return out
+
+
 def run(chk, replay, exe):
     tier = chk.tier
     if replay:
@@ -93,7 +145,7 @@ def run(chk, replay, exe):
     chk.exhaustive = True
     chk.bounds["model"] = "formats over {'{','}','a'} up to length %d; 0..k+1 arguments (max %d) from {'', 'x', '{}', '{', '}{'}; raise messages of 1..3 items" % (
         (5, 3) if tier == "quick" else (7, 4))
-    cases = [json.loads(x) for x in r["lines"]["CASE"]]
+    cases = [json.loads(x)["ops"][0] for x in r["lines"]["CASE"]]
     if len(cases) < 1000:
         raise vc.Infra("Format model exported only %d cases" % len(cases))
     dc = []
@@ -112,6 +164,32 @@ def run(chk, replay, exe):
     for c, via in dc[:: max(1, len(dc) // 3)][:3]:
         chk.sample(dict(kind="spec->code case", op=c["op"], fmt=_s(c["fmt"]), args=[_s(a) if isinstance(a, list) else a for a in c["args"]],
                         via=via, expected=c["outcome"], out=_s(c["out"])))
+    # object level: histories of operations on one thread (a formatter rendered, given more, rendered again; raises)
+    hm = "MC_Format_hist_%s.cfg" % tier
+    r = vc.run_tlc("text/MC_Format", "text/" + hm, timeout=3000, xmx="16g")
+    chk.add_tlc(hm, r)
+    if not r["ok"]:
+        chk.model_violation(hm, r)
+        return
+    hists = [json.loads(x)["ops"] for x in r["lines"]["CASE"]]
+    if len(hists) < 500:
+        raise vc.Infra("Format history model exported only %d histories" % len(hists))
+    hobs = vc.run_cases(exe, [hist_driver(h) for h in hists], chk.out, "replay_hist", per_case_timeout=10)
+    for h, o in zip(hists, hobs):
+        if o.get("outcome") == "skipped":
+            continue
+        got = o.get("ops") if o.get("outcome") == "ok" else o.get("steps", [])
+        for k, x in enumerate(h):
+            wit = hist_driver(h[:k + 1])
+            if k >= len(got):
+                chk.diverge("History/" + ("Format" if x["op"] == "format" else "Raise"), str(o.get("outcome")), wit, "operation %d of a history: %s (%s)" % (k + 1, o.get("outcome"), o.get("why")))
+                break
+            pre = "" if k == 0 else "History/" + {"new": "", "again": "RenderAgain/", "mod": "SupplyMore/", "args": "SupplyMore/"}[x["cont"]]
+            if compare(chk, x, got[k], x["cont"], wit=wit, pre=pre):
+                break
+    chk.replayed += len(hists)
+    chk.bounds["history model"] = "%d operations per history: fresh formatter / render again / one more argument via %% or args(...) / raise with text, integer and hex-switching items" % (2 if tier == "quick" else 3)
+    chk.sample(dict(kind="spec->code history", ops=[(x["op"], x["cont"], _s(x["fmt"]), [(_s(a) if isinstance(a, list) else a) for a in x["args"]], x["outcome"]) for x in hists[len(hists) // 2]]))
     # code -> spec
     rng = random.Random(chk.seed)
     n = 4000 if tier == "quick" else 60000
@@ -119,21 +197,40 @@ def run(chk, replay, exe):
     robs = vc.run_cases(exe, [to_driver(c, via) for c, via in rc], chk.out, "record", per_case_timeout=5)
     execs, cur = [], []
     for (c, via), o in zip(rc, robs):
-        ev = dict(e=c["op"], fmt=c.get("fmt", []), args=c["args"], via=via, outcome=o.get("outcome"), cls=o.get("cls", ""),
+        ev = dict(e=c["op"], fmt=c.get("fmt", []), args=c["args"], via=via, cont="new", outcome=o.get("outcome"), cls=o.get("cls", ""),
                   out=o.get("out", []), conv=o.get("conv", []), stream=o.get("stream", []))
         cur.append((c, via, o, ev))
         if len(cur) == 25:
             execs.append(cur); cur = []
     if cur:
         execs.append(cur)
+    # recorded histories: each becomes one execution (events carry how they continue the previous one)
+    rh = rand_hists(rng, n // 8)
+    hobs = vc.run_cases(exe, [hist_driver(h) for h in rh], chk.out, "record_hist", per_case_timeout=10)
+    for h, o in zip(rh, hobs):
+        if o.get("outcome") == "skipped":
+            continue
+        got = o.get("ops") if o.get("outcome") == "ok" else o.get("steps", [])
+        cur = []
+        for k, x in enumerate(h):
+            g = got[k] if k < len(got) else dict(outcome=str(o.get("outcome")))
+            c = dict(op=x["op"], fmt=x["fmt"], args=x["args"])
+            ev = dict(e=x["op"], fmt=x["fmt"], args=x["args"], via="hist", cont=x["cont"], outcome=g.get("outcome"), cls=g.get("cls", ""),
+                      out=g.get("out", []), conv=g.get("conv", []), stream=g.get("stream", []))
+            cur.append((c, x["cont"], g, ev, hist_driver(h[:k + 1])))
+            if k >= len(got):
+                break
+        execs.append(cur)
     rej, st = vc.validate_trace("text/FormatTrace", "text/FormatTrace.cfg", [[e[3] for e in ex] for ex in execs], chk.out, "trace")
     chk.states += st["states"]; chk.transitions += st["states"]
     chk.recorded += len(execs)
     for k, matched, path, why in rej:
-        c, via, o, ev = execs[k][min(matched, len(execs[k]) - 1)]
-        where = "Format" if c["op"] == "format" else "Raise"
-        chk.diverge(where, "wrong-result" if o.get("outcome") in ("ok", "raise") else str(o.get("outcome")), to_driver(c, via),
-                    "recorded call rejected by FormatTrace at event %d (%s): %s -> %s" % (matched, why, json.dumps(to_driver(c, via)), json.dumps(o)),
+        e = execs[k][min(matched, len(execs[k]) - 1)]
+        c, via, o, ev = e[:4]
+        wit = e[4] if len(e) > 4 else to_driver(c, via)
+        where = ("History/" if len(e) > 4 and matched > 0 else "") + ("Format" if c["op"] == "format" else "Raise")
+        chk.diverge(where, "wrong-result" if o.get("outcome") in ("ok", "raise") else str(o.get("outcome")), wit,
+                    "recorded call rejected by FormatTrace at event %d (%s): %s -> %s" % (matched, why, json.dumps(wit)[:600], json.dumps(o)[:400]),
                     artefact=path)
     chk.sample(dict(kind="code->spec event", event=execs[0][0][3]))
     chk.assumptions += ["stream representation of std::string is the string itself, of integers their decimal text (libstdc++, C locale)",
